@@ -163,6 +163,7 @@ structure D where
   log : List LogEv := []      -- cumulative
   reported : List Sig := []   -- cumulative: `StopReason::SignalStop` handed to the user (= `EventHook::on_signal`)
   stops : List Out := []      -- outcomes of the `continue`s of the last `drain`
+  stepArr : Bool := false     -- ghost: some signal-delivery-stop was reported while `single_step` was waiting
   deriving Repr
 
 /-- result of `Tracer::single_step` -/
@@ -197,27 +198,41 @@ def kp (d : D) (m : Mode) (s : Sig) : D × WEv :=
   | .sigStop a => (r.1.push a, r.2)
   | _ => r
 
+/-- `kp` inside `single_step`; the ghost flag records that a signal-delivery-stop was seen there -/
+def kps (d : D) (m : Mode) (s : Sig) : D × WEv :=
+  let r := d.kp m s
+  match r.2 with
+  | .sigStop _ => ({ r.1 with stepArr := true }, r.2)
+  | _ => r
+
+/-- `PTRACE_SYSCALL` + `wait_one` inside `single_step` (no `apply_new_status`), with the ghost flag -/
+def ksys (d : D) : D × WEv :=
+  let r := d.kres .sysc 0
+  match r.2 with
+  | .sigStop _ => ({ r.1 with stepArr := true }, r.2)
+  | _ => r
+
 /-- the loop of `Tracer::single_step` after the first `step(None)`; a reported `sigStop` has already been queued -/
 def ssLoop : Nat → Nat → D → WEv → D × SRes
   | 0, _, d, _ => (d, .outOfFuel)
   | f + 1, ini, d, .trap =>
     if d.k.pos = ini then
-      let r := d.kp .step 0
+      let r := d.kps .step 0
       ssLoop f ini r.1 r.2
     else (d, .none)
   | _ + 1, _, d, .trapBp => (d, .none)
   | f + 1, ini, d, .trap5 =>
     -- `PTRACE_SYSCALL`, `wait_one`, `debug_assert!(status == Stopped(SIGTRAP))`: no `apply_new_status` here
-    let r := d.kres .sysc 0
+    let r := d.ksys
     match r.2 with
     | .trap | .trap5 | .trapBp =>
-      let r2 := r.1.kp .step 0
+      let r2 := r.1.kps .step 0
       ssLoop f ini r2.1 r2.2
     | .unmodelled => (r.1, .unmodelled)
     | _ => (r.1, .panic)
   | f + 1, ini, d, .sigStop s =>
     if s ∈ quiet then
-      let r := d.kp .step s
+      let r := d.kps .step s
       ssLoop f ini r.1 r.2
     else (d, .sig s)
   | _ + 1, _, d, .exitEv => (d, .err)
@@ -226,7 +241,7 @@ def ssLoop : Nat → Nat → D → WEv → D × SRes
 def ssFuel (d : D) : Nat := 4 * (d.k.pp.length + d.k.sp.length) + 8
 
 def singleStep (d : D) : D × SRes :=
-  let r := d.kp .step 0
+  let r := d.kps .step 0
   ssLoop (ssFuel d) d.k.pos r.1 r.2
 
 /-- `Tracer::resume` -/
